@@ -3,6 +3,6 @@ P('C17', shards=16,
   technique='property-based testing (rapid) + exhaustive small-scope enumeration + native coverage-guided fuzzing; oracle: lexical containment and join identity',
   text='Every generated (base, url path) pair is resolved by the real ResolveUrlPath and judged by an independent lexical '
        'containment oracle and the join identity; all url paths of length <= 8 over {/ . a \\} x 14 bases are enumerated completely, '
-       'millions of random hostile paths and bases are sampled, and a native fuzz campaign searches for more. Exploration, not proof.',
+       'millions of random hostile paths and bases are sampled, and a native fuzz campaign searches for more. A race pass runs concurrent callers. Exploration, not proof.',
   note='Trusts the harness oracle (lexical resolver of ~20 lines) and POSIX path semantics; symlink resolution is outside the statement.',
   design='3/C17')
